@@ -232,9 +232,16 @@ def body(C):
     if os.environ.get('VERIF_C11_ALL'):
         # rebuild their input with format! at symbolic offsets: did not finish within 25 min at 12 bytes (not part of the claim)
         jobs += [(run_nopanic, ('MatrixId::parse_with_type', 'c11:parse_type')), (run_nopanic, ('MatrixToUri::parse', 'c11:parse_matrixto'))]
-    for variant in ('Room', 'RoomAlias', 'User', 'EventInRoom', 'EventInAlias'):
-        for style in ('sigil', 'type'):
-            jobs.append((run_roundtrip, (variant, style)))
+    # claimed scope: single-identifier URIs in the sigil (matrix.to) form.  The event variants (two identifiers) ran into the
+    # 120 s solver cap and the `type` (matrix:) style rebuilds the text with format! at symbolic offsets and did not finish in
+    # 7 minutes per variant: available with VERIF_C11_ALL=1, not part of the claim.
+    for variant in ('Room', 'RoomAlias', 'User'):
+        jobs.append((run_roundtrip, (variant, 'sigil')))
+    if os.environ.get('VERIF_C11_ALL'):
+        for variant in ('EventInRoom', 'EventInAlias'):
+            jobs.append((run_roundtrip, (variant, 'sigil')))
+        for variant in ('Room', 'RoomAlias', 'User', 'EventInRoom', 'EventInAlias'):
+            jobs.append((run_roundtrip, (variant, 'type')))
     only = os.environ.get('VERIF_ONLY')
     if only:
         jobs = [j for j in jobs if only in repr(j[1])]
@@ -242,7 +249,8 @@ def body(C):
         'no-panic: every well-formed UTF-8 text up to the stated bound (matrix.to texts without a `?`: the query goes through form_urlencoded)',
         'round trip: every MatrixId whose identifiers satisfy the identifier grammar (C10 oracles, server-name part abstracted to the shared predicate P) up to the stated id length',
         'percent_encoding::{percent_encode, percent_decode_str} are byte-level library models (WHATWG percent-encoding as documented by the crate)',
-        'outside the claim: MatrixUri::parse (url::Url, WHATWG URL parser), via/action query arguments, Display of MatrixUri',
+        'claimed: MatrixId::parse_with_sigil never panics; to_string_with_sigil / parse_with_sigil round trip for the Room, RoomAlias and User variants (percent-encoding of every byte the identifier grammar admits)',
+        'outside the claim: the event variants (two identifiers), the `type` style of matrix: URIs (parse_with_type / to_string_with_type), MatrixToUri::parse / MatrixUri::parse as wholes (url::Url, WHATWG URL parser), via/action query arguments, Display of MatrixUri',
     ]
     parallel_map(C, jobs, None)
 
